@@ -179,6 +179,14 @@ def laws(ivs, times, rng, budget):
     if len(mixed) > budget: mixed = rng.sample(mixed, budget)
     for a, b in mixed:
         A, B = mk(a), mk(b)
+        if py(lambda: A == B) is True:
+            # two delays that compare equal must be interchangeable: the same arrival for every departure
+            for t in times:
+                if len(t) != a[0]: continue
+                n += 1
+                x = py(lambda: (TT(*t) + A, TT(*t) + B))
+                if x == 'assert' or x[0] != x[1]:
+                    record('trichotomy', a=a, b=b, t=t, observed=f'a == b is True although {t} + a = {x[0] if x != "assert" else x} and {t} + b = {x[1] if x != "assert" else x}'); break
         if py(lambda: A < B) is True:
             for t in times:
                 if len(t) != a[0]: continue
@@ -425,8 +433,11 @@ def replay(path, out):
     if r['law'] == 'trichotomy':
         res = py(lambda: (A < B, A == B, A > B, A <= B, A >= B)); print('observed (<,==,>,<=,>=):', res)
         bad = res == 'assert' or sum(map(bool, res[:3])) != 1 or bool(res[3]) != bool(res[0] or res[1]) or bool(res[4]) != bool(res[2] or res[1])
+        if 't' in r and py(lambda: A == B) is True:
+            x = py(lambda: (TT(*r['t']) + A, TT(*r['t']) + B)); print('a == b is True; t + a, t + b:', x)
+            bad = bad or x == 'assert' or x[0] != x[1]
         ta, tb = tuple(r['a'][2]), tuple(r['b'][2])
-        if len(ta) == len(tb):
+        if len(ta) == len(tb) and r['a'][:2] == r['b'][:2]:
             rt = py(lambda: (TT(*ta) < TT(*tb), TT(*ta) == TT(*tb), TT(*ta) > TT(*tb), TT(*ta) <= TT(*tb), TT(*ta) >= TT(*tb)))
             want = (ta < tb, ta == tb, ta > tb, ta <= tb, ta >= tb)
             print('tiered times with these tiers (<,==,>,<=,>=):', rt, 'tier tuples give', want)
